@@ -107,9 +107,10 @@ def build_jobs(t, sd):
     thorough = t != "quick"
     jobs = []
     versions = list(range(2, 11)) if thorough else [2, 4, 6, 8, 10]
-    for v in versions:
+    for vi, v in enumerate(versions):
         for mode in ("A", "S") if (thorough or v in (2, 6)) else ("A",):
-            fams = gen.control_family(mode, v, thorough)[:: (1 if thorough else 2)]
+            # (quick: every second control skeleton, the offset rotating with the version so that every skeleton is used)
+            fams = gen.control_family(mode, v, thorough)[(0 if thorough else vi % 2):: (1 if thorough else 2)]
             fams += gen.operator_sweep(mode, v, thorough)
             fams += gen.env_family(mode, v)
             fams += gen_fields.field_probes(mode, v)
@@ -119,7 +120,7 @@ def build_jobs(t, sd):
                 if mode == "A" and (thorough or v in (6, 8)):
                     fams += [x for x in gen_subs.abi_sub_family(mode, v) if thorough or "abi-fact" not in x[0]]
             if v >= 3 and mode == "A":
-                fams += gen_opt.opt_family(mode, v, False)[:: (2 if thorough else 7)]
+                fams += gen_opt.opt_family(mode, v, False)[(vi % (2 if thorough else 7)):: (2 if thorough else 7)]
                 fams += gen_const.const_family(mode, v, sd, False)[::3]
             # source programs that break a typing rule: nothing is demanded when they are rejected, but an
             # accepted one must be as disciplined as any other program
